@@ -6,7 +6,9 @@ from xml.sax.saxutils import escape
 
 from bs4 import BeautifulSoup
 
-from .base import DFXPWriter, DFXP_DEFAULT_REGION
+from .base import (
+    DFXPWriter, DFXP_DEFAULT_REGION, _VerbatimTextFormatter, _escape_attribute,
+)
 from ..base import BaseWriter, CaptionNode, merge_concurrent_captions
 
 LEGACY_DFXP_BASE_MARKUP = '''
@@ -140,7 +142,7 @@ class LegacyDFXPWriter(BaseWriter):
 
             body.append(div)
 
-        caption_content = dfxp.prettify(formatter=None)
+        caption_content = dfxp.prettify(formatter=_VerbatimTextFormatter())
         return caption_content
 
     # force the DFXP to only have one language, trying to match on "force"
@@ -212,7 +214,7 @@ class LegacyDFXPWriter(BaseWriter):
 
             content_with_style = self._recreate_style(node.content, dfxp)
             for style, value in list(content_with_style.items()):
-                styles += f' {style}="{value}"'
+                styles += f' {style}="{_escape_attribute(value)}"'
 
             if styles:
                 if self.open_span:
